@@ -199,6 +199,13 @@ def linear_harness(cname, Dn, K, mode):
             if cname == "Householder":
                 y, ld, Mt = value
                 M = P(Mt)
+                # induction over the number of reflections: the only state the loop of _apply_transforms carries from one iteration to the next is
+                # `outputs` (syntactic obligation on the re-read source), so K reflections are K applications of the single step proved here
+                # for an arbitrary incoming `outputs`; the product of orthogonal matrices is orthogonal (lemmas/Lemmas.lean)
+                from tsv.instrument import loop_carried
+                lc = loop_carried(HouseholderSequence._apply_transforms)
+                ctx.oblige("proof-side-condition", z3.BoolVal(len(lc) == 1 and lc[0][1] == ["outputs"]), label="C11.reflection-loop-carries-outputs-only",
+                           loc=("contract", h.hid.split("[")[0], 0), meta={"loops": str(lc)})
                 for b in range(B):
                     ensure(h, ctx, "C01.logdet", P(ld)[b] == 0)
                     for i in range(Dn):
